@@ -176,7 +176,50 @@ pub fn send_many(n: usize, len: usize, sb: u32, mask: u32) {
     crate::reach_end!();
 }
 
+/// C03/C09/C11 (sending side): a RECEIVING end handed to `send` is moved — when `send` returns, this
+/// process holds no copy of it any more (otherwise the receiver "exists" for ever: sends to it never
+/// fail, and senders queued inside it are never released).  A SENDING end that was cloned for the
+/// message leaves exactly the caller's own handle.  `len`/`sb`/`mask` choose one packet, several, or a
+/// refused first attempt.
+pub fn send_moves_receiver(len: usize, sb: u32, mask: u32) {
+    env::link();
+    env::set_sndbuf(sb);
+    env::set_record_only(true);
+    let _ = OsIpcSender::get_max_fragment_size();
+    let (tx, rx) = platform::channel().unwrap();
+    let (atx, arx) = platform::channel().unwrap();
+    let (btx, brx) = platform::channel().unwrap();
+    let arx_fd = ph::receiver_fd(&arx);
+    let btx_fd = ph::sender_fd(&btx);
+    let chans = vec![OsIpcChannel::Receiver(arx), OsIpcChannel::Sender(btx.clone())];
+    let data = env::data_buf(len);
+    env::set_enobufs_mask(mask);
+    let r = tx.send(data, chans, vec![]);
+    assert!(r.is_ok(), "C13: one refusal of a packet > 2000 bytes is absorbed");
+    let cnt = env::att_count();
+    let mut i = 0;
+    let mut seen = false;
+    while i < cnt {
+        let a = env::att(i);
+        if a.has_hdr && a.ok {
+            assert!(a.nfds >= 2 && a.fds[0] == arx_fd, "C04: the receiving end is the first descriptor of the header packet");
+            seen = true;
+        }
+        i += 1;
+    }
+    assert!(seen, "C01: no header packet got through although send reported success");
+    assert!(!env::is_open(arx_fd), "C03/C09: the local copy of a receiving end is still open after it was sent");
+    assert!(env::is_open(btx_fd), "C03: the caller's own sender handle was closed by sending a clone of it");
+    core::mem::forget(r);
+    drop((tx, rx, atx, btx, brx));
+    assert!(env::nopen() == 0 && !env::bad_close(), "C11: ledger after send");
+    crate::reach_end!();
+}
+
 harnesses! {
+    #[unwind(12)] fn send_moves_receiver_small() { send_moves_receiver(100, 8192, 0) }
+    #[unwind(12)] fn send_moves_receiver_frag() { send_moves_receiver(9000, 8192, 0) }
+    #[unwind(12)] fn send_moves_receiver_retry() { send_moves_receiver(3000, 8192, 0b1) }
     // no refusals: all lengths and buffer sizes, up to 8 packets
     #[unwind(12)] fn send_plan_noatt_nofault() { send_plan(0, 0, 1 << 26, 1 << 24) }
     #[unwind(12)] fn send_plan_att_nofault() { send_plan(3, 0, 1 << 26, 1 << 24) }
